@@ -39,7 +39,7 @@ CHECKS = {
     "C03": dict(
         level="model_checking",
         runs=_runs(),
-        deadline=dict(quick=240, thorough=1200),
+        deadline=dict(quick=300, thorough=1500),
         parallel_runs=PAR,
         bounds=dict(
             quick="24 builds (16 subsets of {SHA-NI+SSSE3, SSE2, SSE4.2, AES-NI}; the 8 with SSE4.2 also without the 64-bit crc32 instruction) x every run-time "
@@ -48,7 +48,7 @@ CHECKS = {
                   "(3 contents, L<=150, K={0..5,7,8,9,15,16,17,23,24,25,31,32,33,63,64,65} x alignments 0..15), AES block (every 8th single-bit key + boundary keys x "
                   "every 16th single-bit block + boundary blocks), crypto_aesctr_buf (7 lengths), AES-CTR fixed point (positions [0,560] u [4032,4160], "
                   "K={0,1,15,16,17,32,33,256,257}, nonces {2^64-1, 0x0123456789abcdef}, 2 keys, init2 edges, 4 buffer variants, LCG content), "
-                  "3 single CRC32C_Update calls of 2^32+d bytes, and - where AES-NI is built and reported - 2 selftest-fault configurations (allocation #1 / #2 of "
+                  "one single CRC32C_Update call of 2^32+45 bytes (thorough: three such calls), and - where AES-NI is built and reported - 2 selftest-fault configurations (allocation #1 / #2 of "
                   "the first AES use fails once, so the library's self-test disables AES-NI while the CPU reports it) each followed by block, one-shot and stream comparisons",
             thorough="the same 135 pairs, each with: SHA-256 (3 contents, L<=600, sizes 0..130), HMAC-SHA256 (13 key lengths, 3 contents, L<=300, sizes 0..130), "
                      "PBKDF2 quick grid of C01, CRC32C (L<=300, sizes {0..40,63,64,65} x 16 alignments) and the complete quick tier of C02 (block, one-shot, stream)"),
